@@ -131,7 +131,7 @@ S_TEMPLATES = [
     ("call-local", "int g@; int h@(int p,int q){ g@+=p; return p*2-q; } int f@(int a,int b){ int x=0,y=1; x=h@(a&15,b&15); %B y=h@(y&15,x&15); return x*7+y+g@; }"),
     ("recursion", "int g@; int r@(int n,int acc){ if(n<=0) return acc; g@++; return r@(n-1, acc+n); } int f@(int a,int b){ int x=0,y=1; x=r@(a&7,b&7); %B return x*7+y+g@; }"),
 ]
-S_BODIES = ["x=x+a;", "y=y*3+b;", "g@=g@+x+1;", "x=ext(y&7); y++;", "x^=b; y-=a&3;"]
+S_BODIES = ["x=x+a;", "y=x; x=x+1+(a&1);", "y=y*3+b;", "g@=g@+x+1;", "x=ext(y&7); y++;", "x^=b; y-=a&3;"]
 
 
 def s_templates(depth2=False):
